@@ -197,8 +197,8 @@ def query(pool, t):
         CALLED.add(("Expression", "__new__"))
         try:
             e = M.Expression(unhex(t[1]))
-        except RuntimeError:
-            return "acc=0 exc=RuntimeError"
+        except BaseException as e:
+            return "acc=0 exc=%s" % type(e).__name__
         ins = sorted(call(e, "inputs"))
         tv = "skip" if len(ins) > 12 else bits(truth_vector(e))
         CALLED.add(("Expression", "__str__"))
